@@ -163,7 +163,7 @@ class BigTtlTriplesYielder(BaseTriplesYielder):
             return a_line[start_index], start_index + 1
         elif a_line[start_index] == "<":
             end_index = a_line.find(">", start_index)
-            return self._parse_cornered_element(cornered_element=a_line[start_index:end_index+1]), end_index + 1
+            return a_line[start_index:end_index+1], end_index + 1  # the base is applied by _parse_elem
         elif a_line[start_index] == '"':
             end_index = self._find_next_quoted_literal_ending(a_line, start_index)
             return a_line[start_index:end_index+1], end_index + 1
